@@ -18,6 +18,37 @@ func init() {
 // executions through one or two stacks, plus standalone callers.
 func genC14(r *Rnd, t Tier) *Case {
 	unit := ms
+	// a share of the runs reuses the concurrent scenario families of the other properties under the race detector
+	if r.P(0.3) {
+		var c *Case
+		switch r.Intn(6) {
+		case 0:
+			c = genC04(r, t)
+		case 1:
+			c = genC06(r, t)
+		case 2:
+			c = genC08(r, t)
+		case 3:
+			c = genC09(r, t)
+		case 4:
+			c = genC15(r, t)
+		default:
+			c = genC16(r, t)
+		}
+		// fire injected cancellations at a generated instant instead of sweeping
+		for ci := range c.Sc.Clients {
+			for oi := range c.Sc.Clients[ci].Ops {
+				op := &c.Sc.Clients[ci].Ops[oi]
+				if op.CancelStep != 0 {
+					op.CancelStep = 0
+					op.CancelAt = time.Duration(r.Range(0, 30)) * unit
+				}
+				op.ProbeStep = 0
+			}
+		}
+		c.Sweep = false
+		return c
+	}
 	sc := &Scenario{Family: "c14"}
 	np := r.Range(2, 4)
 	if t.Thorough {
